@@ -7,6 +7,7 @@ CONSTANTS
   MaxVer = 7
   MaxInst = 24
   MaxSubs <- MaxSubsEnv
+  AllowCtxCancel = TRUE
   CloseSelfOnly = TRUE
 SPECIFICATION TSpec
 CONSTRAINT HW
